@@ -277,12 +277,15 @@ CHECKS = {
              "paren, #unwrap) and prescribes its mutability (last pointer crossed is ^mut, or no "
              "pointer crossed and a := root); TLC checks the incremental rule against the "
              "definitional one in every state. Each chain x {=, +=, ^mut} is one statement checked "
-             "by the real front end; accepted iff mutable.",
-        note="quick: <= 3 steps (3829 statements), thorough: <= 4 steps (8686). Front end only "
-             "(visibility of accepted writes through aliases is covered by the executed-program "
-             "checks). Trusted: TLC, the renderer in tools/props/c14.py, matching diagnostics to "
-             "statements by line.",
-        technique="TLA+ rule model (TLC enumeration) + spec-to-implementation replay",
+             "by the real front end; accepted iff mutable. Every accepted store to an i32 place (=, +=, "
+             "and a store through r := ^mut place) is then executed and every i32 cell of the heap "
+             "(MutHeap.tla: objects of the function, of its caller, pointer targets) is read back "
+             "through two readers per cell; TraceAlias.tla validates the records: the written cell "
+             "shows the new value through every alias, every other cell is unchanged.",
+        note="quick: <= 3 steps, thorough: <= 4 steps. Trusted: TLC, the renderer in "
+             "tools/props/c14.py, matching diagnostics to statements by line, the hex printer of "
+             "the generated programs.",
+        technique="TLA+ rule model (TLC enumeration) + spec-to-implementation replay + trace validation of executed stores (TraceAlias.tla)",
         ref="DESIGN.md section 4 C14"),
     "C15": dict(
         engine="Constness",
